@@ -1,5 +1,5 @@
 (* Cisco/IosAcl.v — the numbering core of cisco.diffIOSACLs (with the repaired,
-   direction-aware move suppression): model over an edit script given as merged
+   direction-aware move suppression and the repaired, id-based insideBlock): model over an edit script given as merged
    sequence; device ACL = entries with sequence numbers.  Executable. *)
 From Coq Require Import List Arith Bool Lia NArith.
 Import ListNotations.
@@ -40,30 +40,19 @@ Fixpoint mark_blocks (l : list ientry) (action : option nat) (id : nat) : list n
 
 Definition nthd {A} (l : list A) (i : nat) (d : A) : A := nth i l d.
 
-(* nearest non-remark entry above position pos: (action, block id) *)
-Fixpoint low_of (al : list ientry) (blk : list nat) (pos : nat) : option (nat * nat) :=
+(* insideBlock: Some (action, id) when the lines directly above and below the gap have
+   the same block id; the action is that of the first permit/deny line of this block *)
+Fixpoint block_act (al : list ientry) (blk : list nat) (id : nat) : option nat :=
+  match al, blk with
+  | c :: r, x :: br => if Nat.eqb x id && negb (Nat.eqb (i_act c) 2) then Some (i_act c) else block_act r br id
+  | _, _ => None
+  end.
+Definition inside_block (al : list ientry) (blk : list nat) (pos : nat) : option (nat * nat) :=
   match pos with
   | O => None
-  | S p => match nth_error al p with
-           | Some c => if Nat.eqb (i_act c) 2 then low_of al blk p else Some (i_act c, nthd blk p 0)
-           | None => low_of al blk p
-           end
-  end.
-Fixpoint high_of (al : list ientry) (blk : list nat) (pos : nat) (fuel : nat) : option (nat * nat) :=
-  match fuel with
-  | O => None
-  | S f => match nth_error al pos with
-           | Some c => if Nat.eqb (i_act c) 2 then high_of al blk (S pos) f else Some (i_act c, nthd blk pos 0)
-           | None => None
-           end
-  end.
-
-(* insideBlock: Some (action, id) when the gap lies inside a block *)
-Definition inside_block (al : list ientry) (blk : list nat) (pos : nat) : option (nat * nat) :=
-  match low_of al blk pos, high_of al blk pos (length al) with
-  | Some (la, lid), Some (ha, hid) => if Nat.eqb la ha then Some (la, hid) else None
-  | None, None => None     (* both actions "" : equal, action "" means: not inside *)
-  | _, _ => None
+  | S p => if Nat.ltb pos (length al) && Nat.eqb (nthd blk p 0) (nthd blk pos 0)
+           then match block_act al blk (nthd blk pos 0) with Some a => Some (a, nthd blk pos 0) | None => None end
+           else None
   end.
 
 (* renumber the part of the block from position pos downwards *)
@@ -128,8 +117,9 @@ Fixpoint run_cmds (blk : list nat) (dl : list (nat * ientry)) (gap : nat) (actio
           let oldid := nthd blk pos 0 in
           let downok := all_act rest (i_act b) in
           let skip :=
-            if Nat.ltb pos gap then moveok' && Nat.eqb (nthd blk (gap - 1) 0) oldid
-            else downok && Nat.eqb (nthd blk gap 0) oldid in
+            Nat.eqb (i_log a) (i_log b) &&
+            (if Nat.ltb pos gap then moveok' && Nat.eqb (nthd blk (gap - 1) 0) oldid
+             else downok && Nat.eqb (nthd blk gap 0) oldid) in
           if skip then (cs, pos :: used)
           else (IMove ((N.of_nat pos + 1) * 10000)%N (N.of_nat gap * 10000 + N.of_nat i + 1)%N b :: cs, pos :: used)
       | None => (INum (N.of_nat gap * 10000 + N.of_nat i + 1)%N b :: cs, used)
@@ -213,6 +203,9 @@ Fixpoint ientries_eqb (a b : list ientry) : bool :=
   | x :: a', y :: b' => ientry_eqb x y && ientries_eqb a' b'
   | _, _ => false
   end.
-(* same filtering: equal after dropping log attributes and sorting every same-action run *)
-Definition equiv (a b : list ientry) : bool :=
-  ientries_eqb (concat (canon None [] (map strip a))) (concat (canon None [] (map strip b))).
+(* same filtering: remark lines filter nothing and a log attribute does not change the
+   verdict, so two ACLs filter alike if they are equal after dropping both and sorting
+   every run of lines with the same action *)
+Definition is_rule (e : ientry) : bool := negb (Nat.eqb (i_act e) 2).
+Definition norm (a : list ientry) : list ientry := concat (canon None [] (map strip (filter is_rule a))).
+Definition equiv (a b : list ientry) : bool := ientries_eqb (norm a) (norm b).
